@@ -320,7 +320,7 @@ class SlotFlow:
                 if cond is not None and len(succ) == 2 and succ[0] != succ[1]:
                     pol = (idx == 0)
                     for atom, p in q.conjuncts(cond, pol):
-                        if self._is_slot_test(fn, atom) and p is False:
+                        if self._edge_empty(fn, atom, p):
                             es = EMPTY
                 if s not in state_in:
                     state_in[s] = es
@@ -331,6 +331,9 @@ class SlotFlow:
                         state_in[s] = j
                         work.append(s)
         return state_in.get(cfg.exit), checks
+
+    def _edge_empty(self, fn, atom, pol):
+        return self._is_slot_test(fn, atom) and pol is False
 
     def _is_slot_test(self, fn, atom):
         a = q.strip_casts(atom)
@@ -374,3 +377,64 @@ class SlotFlow:
 
     def exit_state(self, fn):
         return self.analyse(fn, UNK)[0]
+
+
+
+class FieldResetFlow(SlotFlow):
+    """Same dataflow for an arbitrary field: "has the field been reset to its
+    default on this path?". Reset events: assignment, clear()/reset()/swap(),
+    being moved from. Edge refinement: the false edge of `field` (bool
+    conversion) / `field != T()` and the true edge of `field == T()` /
+    `!field` / `field.empty()`. `alias` names a field whose default-ness implies
+    this field's (a co-written pair, checked separately)."""
+    RESET_METHODS = ('clear', 'reset', 'swap', 'assign')
+
+    def __init__(self, fx, field, classes, alias=None, exceptions=()):
+        self.alias = alias
+        SlotFlow.__init__(self, fx, field, classes, exceptions)
+
+    def _events(self, fn):
+        ev = {}
+
+        def add(node, kind):
+            pos = fn.cfg.node_pos(node)
+            if pos is not None:
+                ev.setdefault(pos, []).append((kind, node))
+        for a in q.field_accesses(fn, {self.slot}):
+            if not q.is_this(q.access_root(a.node)) or a.partial:
+                continue
+            if a.kind == 'assign':
+                add(a.site, 'empty')
+            elif a.kind == 'method' and a.method in self.RESET_METHODS:
+                add(a.site, 'empty')
+            elif a.kind in ('move', 'exchange'):
+                add(a.site, 'empty')
+        for c in fn.calls():
+            u = c.get('usr')
+            if u in self.by_usr and c['k'] == 'call' and (c.get('obj') is None or q.is_this(q.access_root(c.get('obj')))):
+                add(c, 'call:' + u)
+        return ev
+
+    def _field_is(self, n, names):
+        n = q.strip_casts(n)
+        if is_node(n) and n['k'] == 'call' and n.get('conv') and is_node(n.get('obj')):
+            n = q.strip_casts(n['obj'])
+        return is_node(n) and n['k'] == 'member' and n.get('mk') == 'field' and strip_targs(n['q']) in names and q.is_this(q.access_root(n))
+
+    def _edge_empty(self, fn, atom, pol):
+        names = {self.slot} | ({self.alias} if self.alias else set())
+        a = q.strip_casts(atom)
+        if self._field_is(a, names):
+            return pol is False
+        c = q.cmp_atom(a)
+        if c and c[0] in ('!=', '=='):
+            for x, y in ((c[1], c[2]), (c[2], c[1])):
+                yy = q.strip_casts(y)
+                if self._field_is(x, names) and is_node(yy) and ((yy['k'] == 'construct' and not yy.get('args')) or yy['k'] in ('nullptr', 'valueinit') or (yy['k'] == 'int' and yy['v'] == 0)):
+                    return (c[0] == '!=' and pol is False) or (c[0] == '==' and pol is True)
+        if is_node(a) and a['k'] == 'call' and (a.get('callee') or '').split('::')[-1] == 'empty' and self._field_is(a.get('obj'), names):
+            return pol is True
+        return False
+
+    def _may_set(self):
+        return set()
